@@ -33,7 +33,7 @@ MANIFEST = {
                  'attribute kind x policy x datum under a recording '
                  'security policy; non-interference (two-run) and mediation '
                  '(policy log) oracles',
-    'text': 'A table of 114 access channels (client lookup, with / with '
+    'text': 'A table of 121 access channels (client lookup, with / with '
             'only, attribute / item / _.getattr / _[...] access in '
             'expressions, dtml-in items as objects and 2-tuples, '
             'skip_unauthorized, sequence-var-, first-/last-, the ten '
@@ -217,6 +217,26 @@ def after_plain_sub(builder):
     return build
 
 
+def after_lax_sub(builder, defaults=False):
+    """the same namespace plus a sub-template of a class that supplies its
+    *own*, all-permitting guards, rendered before the read: the including
+    template's guards are in force again afterwards"""
+    def build(attr, datum, other=None):
+        from DocumentTemplate import HTML
+
+        class Lax(HTML):
+            def guarded_getattr(self, *args):
+                return getattr(*args)
+
+            def guarded_getitem(self, ob, index):
+                return ob[index]
+        client, ns = builder(attr, datum, other)
+        ns['laxsub'] = Lax('(sub)', laxdefault=1) if defaults \
+            else Lax('(sub)')
+        return client, ns
+    return build
+
+
 def ns_seq(attr, datum, other=None):
     return None, {'seq': [Node(**{attr: datum, 'ident': 'e1'}),
                           Node(**{attr: other or datum, 'ident': 'e2'})]}
@@ -370,6 +390,21 @@ CHANNELS = [
      ''),
     ('presub-getattr', '<dtml-var presub>',
      prerendered_sub(ns_obj, '[<dtml-var "_.getattr(o, \'ATTR\')">]'), ''),
+    ('laxsub-then-expr', '<dtml-var laxsub><dtml-var "o.ATTR">',
+     after_lax_sub(ns_obj), 'expr'),
+    ('laxsub-defaults-then-expr', '<dtml-var laxsub><dtml-var "o.ATTR">',
+     after_lax_sub(ns_obj, True), 'expr'),
+    ('laxsub-then-with', '<dtml-var laxsub><dtml-with o><dtml-var ATTR>'
+     '</dtml-with>', after_lax_sub(ns_obj), ''),
+    ('laxsub-then-in', '<dtml-var laxsub><dtml-in seq><dtml-var ATTR>,'
+     '</dtml-in>', after_lax_sub(ns_seq), ''),
+    ('laxsub-then-fmt', '<dtml-var laxsub><dtml-var o fmt=ATTR>',
+     after_lax_sub(ns_method), ''),
+    ('laxsub-then-item-in', '<dtml-var laxsub><dtml-in seq><dtml-var pubdata>,'
+     '</dtml-in>', after_lax_sub(ns_seq_refused), 'items'),
+    ('laxsub-in-loop-then-expr', '<dtml-in seq><dtml-var laxsub>'
+     '<dtml-var "_[\'sequence-item\'].ATTR"></dtml-in>',
+     after_lax_sub(ns_seq), 'expr'),
     ('sub-then-expr', '<dtml-var plainsub><dtml-var "o.ATTR">',
      after_plain_sub(ns_obj), 'expr'),
     ('subcall-then-expr', '<dtml-var "plainsub(None, _)"><dtml-var "o.ATTR">',
@@ -502,7 +537,8 @@ def site(cid):
         return 'TreeTag.extract_id/try_call_attr'
     if cid.startswith('tree-branches'):
         return 'TreeTag.tpRenderTABLE[branches]'
-    if cid.startswith('fmt-method') or cid == 'sub-then-fmt':
+    if cid.startswith('fmt-method') or cid in ('sub-then-fmt',
+                                                'laxsub-then-fmt'):
         return 'DT_Var.Var.render[fmt]'
     return cid
 
